@@ -316,7 +316,7 @@ class _ParseTreeProcessor(parsimonious.NodeVisitor):
         return _serializable.VoidType(width)
 
     def visit_type_bit_length_suffix(self, node: _Node, _c: _Children) -> int:
-        return int(node.text)
+        return int(_parse_number(int, node.text))
 
     # ================================================== Expressions ==================================================
 
@@ -431,13 +431,13 @@ class _ParseTreeProcessor(parsimonious.NodeVisitor):
         return _expression.Set(exp_list)
 
     def visit_literal_real(self, node: _Node, _c: _Children) -> _expression.Rational:
-        return _expression.Rational(fractions.Fraction(node.text.replace("_", "")))
+        return _expression.Rational(_parse_number(fractions.Fraction, node.text.replace("_", "")))
 
     def visit_literal_integer(self, node: _Node, _c: _Children) -> _expression.Rational:
-        return _expression.Rational(int(node.text.replace("_", ""), base=0))
+        return _expression.Rational(_parse_number(lambda x: int(x, base=0), node.text.replace("_", "")))
 
     def visit_literal_integer_decimal(self, node: _Node, _c: _Children) -> _expression.Rational:
-        return _expression.Rational(int(node.text.replace("_", "")))
+        return _expression.Rational(_parse_number(int, node.text.replace("_", "")))
 
     def visit_literal_boolean_true(self, _n: _Node, _c: _Children) -> _expression.Boolean:
         return _expression.Boolean(True)
@@ -472,6 +472,19 @@ def _unwrap_array_capacity(ex: _expression.Any) -> int:
     raise _error.InvalidDefinitionError("Array capacity expression must yield a rational, not %s" % ex.TYPE_NAME)
 
 
+def _parse_number(
+    parser: typing.Callable[[str], typing.Union[int, fractions.Fraction]], text: str
+) -> typing.Union[int, fractions.Fraction]:
+    """
+    The grammar guarantees that the text is a well-formed numeral, but the conversion may still be refused:
+    the interpreter limits the number of digits in str->int conversions (see sys.set_int_max_str_digits()).
+    """
+    try:
+        return parser(text)
+    except ValueError:
+        raise DSDLSyntaxError("Numeric literal is too long: %d characters" % len(text)) from None
+
+
 def _parse_string_literal(literal: str) -> _expression.String:
     assert literal[0] == literal[-1]
     assert literal[0] in "'\""
@@ -498,7 +511,10 @@ def _parse_string_literal(literal: str) -> _expression.String:
                 if s not in "0123456789abcdef":
                     raise DSDLSyntaxError("Invalid hex character: %r" % s)
                 h += s
-            return chr(int(h, 16))
+            code_point = int(h, 16)
+            if code_point > 0x10FFFF:
+                raise DSDLSyntaxError("Invalid Unicode code point: %r" % h)
+            return chr(code_point)
 
         try:
             return {
